@@ -48,7 +48,13 @@ void runProxy(const Scn &scn, Out &out)
         while (quiet < 4 && timer.elapsed() < 3000) {
             QCoreApplication::processEvents(QEventLoop::AllEvents, 2);
             QCoreApplication::sendPostedEvents(nullptr, QEvent::DeferredDelete);
-            if (!upSock && upstream.hasPendingConnections()) upSock = upstream.nextPendingConnection();
+            if (!upSock && upstream.hasPendingConnections()) {
+                upSock = upstream.nextPendingConnection();
+                // the scripted server's writes are small and come one per `up` event: without TCP_NODELAY Nagle's
+                // algorithm holds the second one back until the proxy's kernel acknowledges the first, which it
+                // delays (~40 ms) once the connection has carried data both ways - longer than a `turn` waits
+                upSock->setSocketOption(QAbstractSocket::LowDelayOption, 1);
+            }
             // once the scripted upstream has sent something, the kernel delays its acknowledgements (~40 ms) and
             // Nagle's algorithm then holds back the proxy's next small write for as long: ask for immediate
             // acknowledgements (the option is not sticky, so on every round)
